@@ -183,7 +183,7 @@ func TestC02(t *testing.T) {
 		variant := ev.ShardNo()*runs + run
 		u := newCDP(t, cdpOpts{variant: variant})
 		rnd := rng("C02", run)
-		cfg := cdpCfg{priceMoves: run%2 == 1, bids: run%2 == 1, lockers: false, unsolicited: false, liquidateMsg: run%2 == 1}
+		cfg := cdpCfg{priceMoves: run%2 == 1, bids: run%2 == 1, lockers: false, unsolicited: false, liquidateMsg: run%2 == 1, reserve: run%2 == 1}
 		r := newCdpRunner(u, rnd, rec, cfg, newC02Mon(u, rec))
 		r.run(cdpSteps())
 		if run == 0 {
